@@ -778,7 +778,8 @@ def mutate(rng, name, path, pairs):
             h = rng.choice(['HTTP_X_FORWARDED_HOST', 'HTTP_X_FORWARDED_PROTO', 'HTTP_X_SCRIPT_NAME', 'HTTP_HOST', 'HTTP_IF_NONE_MATCH',
                             'HTTP_IF_MODIFIED_SINCE', 'HTTP_ACCEPT', 'HTTP_REFERER', 'HTTP_ORIGIN'])
             v = rng.choice(HOSTILE + ['evil.example"><c18m x="', "evil.example'><c18m>", 'a, b', 'javascript:alert(1)//', 'https', 'ftp',
-                                      '/prefix', '/pre"fix<c18m>', 'Thu, 01 Jan 1970 00:00:00 GMT', 'yesterday', '*', 'W/"x"'] + HOST_FORMS)
+                                      '/prefix', '/pre"fix<c18m>', '/pre&fix', "/pre'fix", 'Thu, 01 Jan 1970 00:00:00 GMT', 'Fri, 01 Jan 2100 00:00:00 GMT',
+                                      'Sun, 06 Nov 2094 08:49:37 GMT', 'yesterday', '*', 'W/"x"'] + HOST_FORMS)
             v = ''.join(c for c in v if ord(c) >= 32 and ord(c) != 127)     # a WSGI server never delivers control characters in a header value
             headers[h] = v.encode('utf-8').decode('latin-1')      # PEP 3333: header values are latin-1 decoded bytes
             what.append('header %s' % h)
@@ -910,6 +911,10 @@ def oracle_response(ctx, name, res, rep, req_size, base, skeletons, appdocs):
         ctx.fail(sig + 'content-length', 'Content-length %r but %d body bytes' % (cl, len(body)), rep)
     ct = hd.get('content-type', '')
     kind = 'other'
+    if (code in (204, 304) or code < 200) and body:
+        # RFC 7230 3.3.3: these answers have no message body; whatever is sent is read as the start of the next response
+        ctx.fail(sig + 'body-on-%d' % code, 'status %s with a body of %d bytes (Content-length %r)' % (status, len(body), cl), rep)
+        return 'incomplete'
     if code == 304 or not body:
         return 'empty'
     if ct.startswith('image/'):
@@ -1249,6 +1254,14 @@ def part_app(ctx, skeletons):
                     q2 = list(pairs)
                     q2[i] = (key, v2)
                     stream.append((name, path, q2, {}, None, 'non-UTF-8 escape in %s' % key, 'ok'))
+    # capabilities documents requested through paths / script names with sub-delimiters and markup (they end up in Request.base_url)
+    for name, path, pairs in bases:
+        if 'cap' not in name and name not in ('tms.root', 'kml.root', 'demo.index', 'root'):
+            continue
+        for extra in ('/a&b', "/x'y", '/<c18m>', '/a;b=c', '/"q"', '/a b', '/%26'):
+            if path in ('/service', '/ows'):
+                stream.append((name, path + extra, pairs, {}, None, 'extra path segment', 'ok'))
+            stream.append((name, path, pairs, {'HTTP_X_SCRIPT_NAME': '/pre' + extra[1:]}, None, 'script name', 'ok'))
     # every form of Host header for every service
     for i, (name, path, pairs) in enumerate(bases):
         for j in range(len(HOST_FORMS) if not ctx.quick else 3):
@@ -1326,6 +1339,29 @@ def part_app(ctx, skeletons):
         ctx.count('app:answer=' + kind)
         if status == '500' and kind == 'text':
             ctx.count('app:catch-all-internal-error')
+    # conditional requests built from the validators of a first answer (history of two requests within one instance)
+    for name, path, pairs in bases:
+        qs = enc_query(pairs, ctx.rng)
+        UP['mode'] = 'ok'
+        first = call_app(app, path, qs, {})
+        hd1 = dict((str(k).lower(), v) for k, v in (first.get('headers') or []) if isinstance(v, str))
+        etag, lm = hd1.get('etag'), hd1.get('last-modified')
+        conds = [{'HTTP_IF_MODIFIED_SINCE': 'Fri, 01 Jan 2100 00:00:00 GMT'}, {'HTTP_IF_MODIFIED_SINCE': 'Sun, 06 Nov 2094 08:49:37 GMT'}]
+        if etag:
+            conds += [{'HTTP_IF_NONE_MATCH': etag}, {'HTTP_IF_NONE_MATCH': etag, 'HTTP_IF_MODIFIED_SINCE': 'Thu, 01 Jan 1970 00:00:00 GMT'},
+                      {'HTTP_IF_NONE_MATCH': '"other"', 'HTTP_IF_MODIFIED_SINCE': 'Fri, 01 Jan 2100 00:00:00 GMT'}]
+        if lm:
+            conds += [{'HTTP_IF_MODIFIED_SINCE': lm}]
+        if not (etag or lm):
+            conds = conds[:1]
+        for hdr in conds:
+            res = call_app(app, path, qs, hdr)
+            rep = {'service': name, 'PATH_INFO': path, 'QUERY_STRING': qs, 'headers': hdr, 'upstream': 'ok',
+                   'history': 'the same request answered %s with ETag %r, Last-modified %r immediately before' % (first.get('status'), etag, lm),
+                   'status': res.get('status'), 'body_head': repr(b''.join(res.get('chunks') or [])[:120]) if 'chunks' in res else None}
+            kind = oracle_response(ctx, name, res, rep, requested_size(name, path, pairs), base, skeletons, appdocs)
+            ctx.case(('conditional', path, qs, tuple(sorted(hdr.items()))), True)
+            ctx.count('conditional:status=' + (res.get('status') or 'raised')[:3])
     # the instance whose cache directories cannot be created
     if faulty is None:
         ctx.problem('harness', 'the application with an unusable cache directory could not be built')
